@@ -1345,16 +1345,27 @@ Proof.
   reflexivity.
 Qed.
 
+Lemma P1_no_dot_ok s : forallb P1 s = true -> num_dot_ok s = false.
+Proof.
+  intros H. unfold num_dot_ok. apply orb_false_iff. split.
+  - destruct (hex_number_ok s) eqn:Hh; auto. exfalso.
+    destruct (hex_number_ok_inv s Hh) as (x & y & r & -> & Hx & _).
+    cbn [forallb] in H. apply andb_true_iff in H. destruct H as [_ H]. apply andb_true_iff in H. destruct H as [H _].
+    unfold P1, is_dec in H. lia.
+  - induction s as [|c s IH]; auto. cbn [forallb existsb] in *. apply andb_true_iff in H. destruct H as [Hc Hs].
+    rewrite (IH Hs). unfold P1, is_dec in Hc. lia.
+Qed.
+
 Lemma number_run fuel c0 s' tail st1 o :
   number_ok (c0 :: s') = true ->
-  is_alnum_ (head_or_eof tail) = false -> head_or_eof tail <> 46 ->
+  is_alnum_ (head_or_eof tail) = false -> (head_or_eof tail = 46 -> num_dot_ok (c0 :: s') = true) ->
   at_ st1 (s' ++ tail) o -> (length (s' ++ tail) < fuel)%nat ->
   exists st', scan_number fuel c0 st1 = Ok (c0 :: s') st' /\ at_ st' tail (o + len s').
 Proof.
   intros Hok Hal H46 Hat Hf.
   pose proof (is_numeral_ok _ Hok) as Hnum.
-  assert (HP1t : P1 (head_or_eof tail) = false).
-  { unfold P1. unfold is_alnum_, is_ident in Hal. unfold is_dec in *. lia. }
+  assert (HP1t : head_or_eof tail <> 46 -> P1 (head_or_eof tail) = false).
+  { intros Hne. unfold P1. unfold is_alnum_, is_ident in Hal. unfold is_dec in *. lia. }
   assert (HeE : (head_or_eof tail =? 101) || (head_or_eof tail =? 69) = false).
   { unfold is_alnum_, is_ident in Hal. lia. }
   unfold number_ok in Hok. apply orb_true_iff in Hok. destruct Hok as [Hh|Hd].
@@ -1378,7 +1389,9 @@ Proof.
     cbn [forallb] in HMP. apply andb_true_iff in HMP. destruct HMP as [Hc0 HM'].
     rewrite <- !app_assoc in Hat, Hf.
     assert (Hq : P1 (head_or_eof (E ++ G ++ tail)) = false).
-    { destruct HE as [[-> ->]|(HGne & e & He & HEe)]; [exact HP1t|].
+    { destruct HE as [[-> ->]|(HGne & e & He & HEe)].
+      { apply HP1t. intros E46. specialize (H46 E46). rewrite !app_nil_r in H46.
+        rewrite (P1_no_dot_ok (c0 :: M')) in H46; [discriminate|]. cbn [forallb]. rewrite Hc0, HM'. reflexivity. }
       destruct HEe as [->|(sg & _ & ->)]; cbn [app head_or_eof]; unfold P1, is_dec; lia. }
     unfold scan_number. change (take_while fuel (fun c : Z => is_dec c || (c =? 46)) st1) with (take_while fuel P1 st1).
     destruct (take_while_run fuel P1 M' st1 _ o P1_class HM' Hq Hat Hf) as (sa & Ea & Aa).
@@ -1465,14 +1478,15 @@ Lemma number_tok_ok s tail :
 Proof.
   intros Hok Hm fuel redo stX o Hf Hat. cbn [lexeme_bytes lexeme_type lexeme_text no_merge] in *.
   apply andb_true_iff in Hm. destruct Hm as [Hal H46].
+  assert (H46'' : head_or_eof tail = 46 -> num_dot_ok s = true).
+  { intros E. rewrite E in H46. cbn [Z.eqb Pos.eqb negb orb] in H46. exact H46. }
   assert (Hal' : is_alnum_ (head_or_eof tail) = false) by (destruct (is_alnum_ _); auto; discriminate).
-  assert (H46' : head_or_eof tail <> 46) by lia.
   destruct (number_first s Hok) as (c0 & s' & -> & Hc0).
   rewrite <- app_comm_cons in Hat.
   assert (Hcb : is_nl c0 = false /\ byteb c0 = true).
   { destruct Hc0 as [Hc0|[-> _]]; [unfold is_dec in Hc0; unfold is_nl, byteb; lia|split; reflexivity]. }
   destruct (next_plain _ _ _ _ Hat (proj1 Hcb) (proj2 Hcb)) as (s1 & N & A & _).
-  destruct (number_run fuel c0 s' tail s1 (o + 1) Hok Hal' H46' A ltac:(clear - Hf; simpl in Hf; lia))
+  destruct (number_run fuel c0 s' tail s1 (o + 1) Hok Hal' H46'' A ltac:(clear - Hf; simpl in Hf; lia))
     as (st' & E & A').
   exists c0, s1, st'. split; auto.
   assert (Eo : off s1 - 1 = o) by (destruct A as [_ A2]; lia).
